@@ -92,9 +92,15 @@ pub fn tower_keys() -> Keys {
 
 /// U1, U2 are users; U3 is a key that never registers.
 pub fn user_keys(u: u8) -> Keys {
+    if u == 2 {
+        // U2's secret key is the negation of U1's: two different users (different compressed public keys) that share
+        // the x coordinate - anything that identifies a user by less than the whole key confuses exactly these two
+        let sk = Keys::from_byte(0xa1).sk.negate();
+        let pk = PublicKey::from_secret_key(&Secp256k1::new(), &sk);
+        return Keys { sk, pk };
+    }
     Keys::from_byte(match u {
         1 => 0xa1,
-        2 => 0xb2,
         3 => 0xc3,
         _ => 0xd4,
     })
